@@ -232,7 +232,7 @@ func c11BodyLength(c *Ctx) {
 	}
 	if rl != nil {
 		blank := func(a Atom) bool {
-			if a.Kind != "eqk" || a.K != 0 {
+			if a.Kind != "ltk" || a.K != 1 {
 				return false
 			}
 			x, ok := lenOf(a.X)
